@@ -139,9 +139,14 @@ class DetLoop(asyncio.AbstractEventLoop):
         self.unhandled.append(ctx)
 
     def enter(self):
+        # every invocation of pool code is bracketed by enter()/leave(): bound its duration
         _aio_events._set_running_loop(self)
+        import signal
+        signal.setitimer(signal.ITIMER_REAL, SECTION_SECONDS[0])
 
     def leave(self):
+        import signal
+        signal.setitimer(signal.ITIMER_REAL, 0)
         _aio_events._set_running_loop(None)
 
 
@@ -776,7 +781,8 @@ def _alarm(signum, frame):
     raise Runaway('an atomic section of the pool did not return within the time limit')
 
 
-CASE_SECONDS = float(os.environ.get('C15_CASE_SECONDS', '5'))
+CASE_SECONDS = float(os.environ.get('C15_CASE_SECONDS', '5'))     # per atomic section of pool code
+SECTION_SECONDS = [CASE_SECONDS]
 MAX_EVENTS = 60000
 
 
@@ -792,7 +798,7 @@ def run_case(line):
         return {'trace': '', 'dig': [], 'mon': [], 'skipped': 'too many runaway cases in this process'}
     ALARMED[0] = None
     signal.signal(signal.SIGALRM, _alarm)
-    signal.setitimer(signal.ITIMER_REAL, CASE_SECONDS if N_RUNAWAY < 2 else 1.5)
+    SECTION_SECONDS[0] = CASE_SECONDS if N_RUNAWAY < 2 else 1.5
     try:
         r = _run_case(line)
     finally:
